@@ -1,5 +1,6 @@
 (* C14 - session nonces advance by exactly one per packet, big-endian, with full carry. *)
-From AsconV Require Import Model.Noncem Proofs.AeadP Proofs.NonceP Proofs.PermP Props.Properties_C01.
+From AsconV Require Import Model.Noncem Proofs.AeadP Proofs.NonceP Proofs.IncDecP Proofs.PermP Props.Properties_C01.
+From Coq Require Import ZArith.
 Local Open Scope nat_scope.
 
 (* +1 as a 128-bit big-endian integer: carry through all 16 bytes, wrap at 2^128 *)
@@ -35,11 +36,81 @@ Theorem C14_session_packet_i : forall v K N packets i A chunks, nth_error packet
 Proof. intros v K N packets. exact (session_spec_nth Perm.perm v K N packets). Qed.
 Print Assumptions C14_session_packet_i.
 
+(* Sessions mixing encryption and decryption (Proofs/IncDecP.v: packet, packet_run, session_run compose the model functions
+   inc_start / inc_encrypt_block / inc_decrypt_block / inc_encrypt_finalize / inc_decrypt_finalize; nothing else).
+   What the code does (src/aead/ascon-aead-inc-128.c, -128a.c, -80pq.c, read again for this statement): the ONLY write to
+   state->nonce after init/reinit is the last statement of *_aead_start, "ascon_aead_increment_nonce(state->nonce)", executed
+   unconditionally after the nonce has been copied into the ASCON state; *_encrypt_block, *_decrypt_block, *_encrypt_finalize and
+   *_decrypt_finalize never touch the field.  So the increment happens when a packet STARTS, before it is known whether the packet
+   will be encrypted or decrypted, and a decryption that fails leaves the nonce advanced like one that succeeds.  (The "no
+   increment on failure" rule of the property text is about the C++ objects only: C17_packet.)
+
+   A session: any object s holding key K and nonce N, any list of packets; a packet is PEnc A chunks (encrypt the chunks) or
+   PDec A chunks tag (decrypt the chunks, finalize with tag - genuine or forged), any chunking incl. empty chunks.
+   session_run returns the final object and, per packet, the nonce field read back after the packet and the packet's outputs. *)
+
+(* the nonce part needs no hypothesis at all (any variant record, any key/nonce lengths, any tags): after packet i the field holds
+   N + i + 1, i.e. increment_nonce applied i + 1 times *)
+Theorem C14_session_nonces : forall v s packets i, i < length packets ->
+  exists o, nth_error (snd (session_run Perm.perm v s packets)) i = Some (nonce_add (i_nonce s) (S i), o).
+Proof. intros v s packets i. exact (session_run_nonces Perm.perm v packets s i). Qed.
+Print Assumptions C14_session_nonces.
+
+(* packet i is processed under N + i whatever the kinds and verdicts of packets 0..i-1: an encrypt packet yields the one-shot
+   ciphertext || tag under N + i; a decrypt packet returns as many bytes per call as it was given, 0 and the plaintext m exactly
+   when the specification decrypts body || tag under N + i to Some m, -1 otherwise, and that verdict is the one-shot decrypt_c's
+   under N + i (packet_ok spells the three clauses out); and the field afterwards is N + i + 1 *)
+Theorem C14_session_mixed : forall v s packets i p, variant_ok v ->
+  wf_kn v (i_key s) (i_nonce s) -> bytes_ok (i_key s) -> Forall packet_wf packets ->
+  nth_error packets i = Some p ->
+  exists o, nth_error (snd (session_run Perm.perm v s packets)) i = Some (nonce_add (i_nonce s) (S i), o) /\
+            packet_ok Perm.perm v (i_key s) (nonce_add (i_nonce s) i) p o.
+Proof. intros v s packets i p Hv. exact (session_run_nth Perm.perm perm_len v (variant_wf v Hv) perm_ok packets s i p). Qed.
+Print Assumptions C14_session_mixed.
+
+(* the object after the whole session: key unchanged, nonce N + number of packets, one result per packet *)
+Theorem C14_session_final : forall v s packets, variant_ok v ->
+  wf_kn v (i_key s) (i_nonce s) -> bytes_ok (i_key s) -> Forall packet_wf packets ->
+  i_key (fst (session_run Perm.perm v s packets)) = i_key s /\
+  i_nonce (fst (session_run Perm.perm v s packets)) = nonce_add (i_nonce s) (length packets) /\
+  length (snd (session_run Perm.perm v s packets)) = length packets.
+Proof. intros v s packets Hv. exact (session_run_final Perm.perm perm_len v (variant_wf v Hv) perm_ok packets s). Qed.
+Print Assumptions C14_session_final.
+
+(* nonce_add n i, the i-fold increment, is N + i modulo 2^128 as a big-endian integer *)
+Theorem C14_nonce_add : forall n i, length n = 16 -> bytes_ok n ->
+  be_decode (nonce_add n i) = ((be_decode n + N.of_nat i) mod 2 ^ 128)%N /\ length (nonce_add n i) = 16.
+Proof. intros n i Hn Hok. split; [exact (nonce_add_val n i Hn Hok)|]. rewrite nonce_add_length. exact Hn. Qed.
+Print Assumptions C14_nonce_add.
+
 Example C14_nonvacuous :
   let n := repeat 255%N 16 in let m := [1; 2; 255; 255; 255]%N ++ repeat 255%N 11 in
   increment_nonce n = repeat 0%N 16 /\ increment_nonce m = [1; 3; 0; 0; 0]%N ++ repeat 0%N 11 /\
   set_nonce [1; 2; 3]%N = repeat 0%N 13 ++ [1; 2; 3]%N.
 Proof. vm_compute. repeat split. Qed.
+
+(* a mixed session on one ASCON-128 object, nonce 00..00 ff ff fe (the start of packet 1 carries through three bytes into byte 12): encrypt, forged
+   decrypt (one tag bit wrong), genuine decrypt of a model-made ciphertext under N+2, encrypt: verdicts 0 / -1 / 0 as they
+   should be, nonce field N+1..N+4 after the packets, packet 3 = one-shot under N+3 *)
+Example C14_mixed_nonvacuous :
+  let K := map N.of_nat (seq 0 16) in let N0 := repeat 0%N 13 ++ [255; 255; 254]%N in
+  let A := [7; 8; 9]%N in let P := map N.of_nat (seq 100 21) in
+  let C2 := Aead.encrypt Perm.perm a128 K (nonce_add N0 2) A P in
+  let C1 := Aead.encrypt Perm.perm a128 K (nonce_add N0 1) [] P in
+  let packets := [PEnc A [firstn 3 P; skipn 3 P];
+                  PDec [] [firstn 9 C1; []; skipn 9 (firstn 21 C1)] (xor_at (skipn 21 C1) 0 [128%N]);
+                  PDec A [firstn 16 C2; skipn 16 (firstn 21 C2)] (skipn 21 C2);
+                  PEnc [] [P]] in
+  let s := inc_init a128 (Some N0) (Some K) in
+  wf_kn a128 (i_key s) (i_nonce s) /\ bytes_ok (i_key s) /\ Forall packet_wf packets /\
+  map fst (snd (session_run Perm.perm a128 s packets)) =
+    [repeat 0%N 13 ++ [255; 255; 255]%N; repeat 0%N 12 ++ [1; 0; 0; 0]%N; repeat 0%N 12 ++ [1; 0; 0; 1]%N; repeat 0%N 12 ++ [1; 0; 0; 2]%N] /\
+  map snd (snd (session_run Perm.perm a128 s packets)) =
+    [OEnc (Aead.encrypt Perm.perm a128 K N0 A P);
+     ODec (-1) [firstn 9 P; []; skipn 9 P];
+     ODec 0 [firstn 16 P; skipn 16 P];
+     OEnc (Aead.encrypt Perm.perm a128 K (nonce_add N0 3) [] P)].
+Proof. vm_compute. repeat split; repeat constructor. Qed.
 
 (* (T) the C helpers themselves: ascon_aead_increment_nonce and ascon_aead_set_counter of src/aead/ascon-aead-util.c are
    re-translated from /repo on every run (clang -O1 LLVM IR, all 16 nonce bytes and the 64-bit counter symbolic; the 16-bit carry
